@@ -23,7 +23,10 @@ Which operation copies which argument is a `Sites` record, regenerated from the 
 
 The mutators are *worst case*: `mutT` visits and rewrites every container of its working value
 (the real, type-directed adapter visits a subset), so every write the library can perform is in the
-model's write list.  Outside the model: aliasing inside one value, objects of user classes, atoms.
+model's write list (e.g. a Union member is adapted on its own copy since fix 5a105c5, a Dict with int keys is
+rebuilt: both write *less* than the model).  `mergeConfig` models `Namespace.update` only; the adaptation
+done by `apply_appends` is covered by `adaptMut` on the same working copy.
+Outside the model: aliasing inside one value, objects of user classes, atoms.
 Imports nothing beyond core Lean.
 -/
 namespace Jap.Heap
